@@ -1,10 +1,14 @@
 package g_auth
 
 import (
+	"crypto/sha256"
+	"encoding/hex"
 	"fmt"
 	"net/http"
 	"reflect"
+	"runtime"
 	"strings"
+	"sync"
 	"testing"
 	"unicode"
 	"unicode/utf8"
@@ -34,12 +38,21 @@ type c24Elem struct {
 }
 
 type c24Case struct {
-	Mode string `json:"mode"` // bearer | xfcc | noise
+	Mode string `json:"mode"` // bearer | bearer-conc | xfcc | noise
 	// bearer
 	Tokens    []string `json:"tokens,omitempty"` // token i belongs to principal "p<i>"
 	HasHeader bool     `json:"has_header,omitempty"`
 	Header    string   `json:"header,omitempty"`
 	Variant   string   `json:"variant,omitempty"`
+	// bearer-conc: one authenticator, NTokens configured tokens derived from Salt,
+	// called from len(Scripts) goroutines at once
+	NTokens  int     `json:"ntokens,omitempty"`
+	TokenLen int     `json:"token_len,omitempty"`
+	Mixed    bool    `json:"mixed,omitempty"` // token lengths vary instead of being all equal
+	Salt     string  `json:"salt,omitempty"`
+	Scripts  [][]int `json:"scripts,omitempty"` // per goroutine: entries index*4+kind, see c24ConcHeader
+	Rounds   int     `json:"rounds,omitempty"`  // each goroutine runs its script this many times
+	Yield    bool    `json:"yield,omitempty"`   // goroutines yield the processor between calls
 	// xfcc
 	Xfcc        string    `json:"xfcc,omitempty"` // rendered header value
 	Want        []c24Elem `json:"want,omitempty"`
@@ -199,6 +212,200 @@ func runC24Bearer(c c24Case, out *lib.Outcome) {
 		}
 		out.Violate("C24/bearer-wrong-identity", "Authorization %q is token #%d, returned identity %s instead of p%d", c.Header, want, who, want)
 	}
+}
+
+// ---------------------------------------------------------------- bearer, many callers at once
+//
+// An AuthenticateFunc is what an http.Server calls from every connection's
+// goroutine, so "accepts a request exactly when ITS header ..." has to hold for
+// every call however many other calls are in flight. There is no hook inside
+// the authenticator to build a schedule with, so the calls are genuinely
+// concurrent; the oracle is exact per call (the literal statement against the
+// configured set), and the binary is built with the race detector so that a
+// call touching another call's data is a finding by itself.
+
+// c24ConcToken is token #i of the case: a deterministic function of the salt,
+// API-key shaped ("vgi_" + hex), of the case's length (or one of four lengths
+// when Mixed). Indices >= NTokens are the never-configured tokens of the same shape.
+func c24ConcToken(c c24Case, i int) string {
+	n := c.TokenLen
+	if c.Mixed {
+		n += i % 4
+	}
+	var b strings.Builder
+	b.WriteString("vgi_")
+	for blk := 0; b.Len() < n; blk++ {
+		h := sha256.Sum256([]byte(fmt.Sprintf("%s/%d/%d", c.Salt, i, blk)))
+		b.WriteString(hex.EncodeToString(h[:]))
+	}
+	return b.String()[:n]
+}
+
+// c24ConcHeader spells the Authorization value of one script entry.
+func c24ConcHeader(c c24Case, entry int) (header, kind string) {
+	i, k := entry/4, entry%4
+	tok := c24ConcToken(c, i)
+	switch k {
+	case 0:
+		return "Bearer " + tok, "configured"
+	case 1:
+		return "Bearer " + c24ConcToken(c, c.NTokens+i), "unconfigured-same-shape"
+	case 2:
+		// last character replaced: edit distance 1 from a configured token
+		last := byte('0')
+		if tok[len(tok)-1] == '0' {
+			last = '1'
+		}
+		return "Bearer " + tok[:len(tok)-1] + string(last), "near-miss"
+	}
+	return "bearer " + tok, "lower-scheme"
+}
+
+func genC24BearerConc(t *rapid.T) c24Case {
+	c := c24Case{Mode: "bearer-conc"}
+	// number of configured tokens: powers of two, few to thousands (the scan
+	// every call makes is as long as the table)
+	c.NTokens = 1 << rapid.IntRange(1, 12).Draw(t, "log2tokens")
+	c.TokenLen = []int{8, 16, 24, 32, 36, 40, 43, 64, 68, 128}[rapid.IntRange(0, 9).Draw(t, "tokenlen")]
+	c.Mixed = rapid.IntRange(0, 3).Draw(t, "mixed") == 0
+	c.Salt = rapid.StringOfN(rapid.RuneFrom([]rune("abcdefghijklmnopqrstuvwxyz0123456789")), 1, 8, -1).Draw(t, "salt")
+	workers := rapid.IntRange(2, 24).Draw(t, "workers")
+	c.Yield = rapid.Bool().Draw(t, "yield")
+	for w := 0; w < workers; w++ {
+		c.Scripts = append(c.Scripts, rapid.SliceOfN(rapid.IntRange(0, 4*c.NTokens-1), 4, 24).Draw(t, "script"))
+	}
+	// bound the work of a case: about 2^18 token comparisons
+	perRound := 0
+	for _, sc := range c.Scripts {
+		perRound += len(sc)
+	}
+	maxRounds := (1 << 18) / (perRound * c.NTokens)
+	if maxRounds < 1 {
+		maxRounds = 1
+	}
+	if maxRounds > 40 {
+		maxRounds = 40
+	}
+	c.Rounds = rapid.IntRange(1, maxRounds).Draw(t, "rounds")
+	return c
+}
+
+type c24ConcMiss struct {
+	key, msg string
+}
+
+func runC24BearerConc(c c24Case, out *lib.Outcome) {
+	out.Label("bearer-conc")
+	if c.Mixed {
+		out.Label("bearer-conc:mixed-length")
+	} else {
+		out.Label("bearer-conc:equal-length")
+	}
+	if c.NTokens >= 256 {
+		out.Label("bearer-conc:tokens>=256")
+	} else {
+		out.Label("bearer-conc:tokens<256")
+	}
+	if len(c.Scripts) >= 8 {
+		out.Label("bearer-conc:goroutines>=8")
+	}
+	if c.Yield {
+		out.Label("bearer-conc:yield")
+	}
+	if raceBuild() {
+		out.Label("bearer-conc:race-detector-on")
+	}
+	out.NonTrivial = len(c.Scripts) >= 2 && c.NTokens >= 2
+
+	tokens := map[string]*vgirpc.AuthContext{}
+	index := map[string]int{}
+	for i := 0; i < c.NTokens; i++ {
+		tok := c24ConcToken(c, i)
+		tokens[tok] = &vgirpc.AuthContext{Domain: "bearer", Authenticated: true, Principal: fmt.Sprintf("p%d", i)}
+		index[tok] = i
+	}
+	if len(tokens) != c.NTokens {
+		out.Skipped = true // derived tokens collided (needs a sha256 prefix collision)
+		return
+	}
+	auth := vgirpc.BearerAuthenticateStatic(tokens)
+
+	// one call, judged by the statement literally
+	call := func(entry int, phase string) *c24ConcMiss {
+		header, kind := c24ConcHeader(c, entry)
+		want := -1
+		if tok, ok := strings.CutPrefix(header, "Bearer "); ok {
+			if i, ok := index[tok]; ok {
+				want = i
+			}
+		}
+		req, _ := http.NewRequest("POST", "http://worker.example/u_str", nil)
+		req.Header.Set("Authorization", header)
+		got, err := auth(req)
+		who := "<nil context>"
+		if got != nil {
+			who = got.Principal
+		}
+		switch {
+		case want < 0 && err == nil:
+			return &c24ConcMiss{lib.Keyf("C24", "bearer-"+phase+"-accepted", kind), fmt.Sprintf("Authorization %q (%s) is not \"Bearer \"+token for any of the %d configured tokens, yet it was accepted as %s", header, kind, c.NTokens, who)}
+		case want >= 0 && err != nil:
+			return &c24ConcMiss{"C24/bearer-" + phase + "-rejected-exact", fmt.Sprintf("Authorization %q is \"Bearer \"+token #%d of %d but was rejected: %v", header, want, c.NTokens, err)}
+		case want >= 0 && (got == nil || got.Principal != fmt.Sprintf("p%d", want) || got.Domain != "bearer" || !got.Authenticated):
+			return &c24ConcMiss{"C24/bearer-" + phase + "-wrong-identity", fmt.Sprintf("Authorization %q is token #%d, returned identity %s instead of p%d", header, want, who, want)}
+		}
+		return nil
+	}
+
+	_, raceBefore := raceLog()
+	start := make(chan struct{})
+	misses := make([]*c24ConcMiss, len(c.Scripts))
+	wrong := make([]int, len(c.Scripts))
+	var wg sync.WaitGroup
+	for w := range c.Scripts {
+		wg.Add(1)
+		go func(w int) {
+			defer wg.Done()
+			<-start
+			for r := 0; r < c.Rounds; r++ {
+				for _, entry := range c.Scripts[w] {
+					if m := call(entry, "concurrent"); m != nil {
+						wrong[w]++
+						if misses[w] == nil {
+							misses[w] = m
+						}
+					}
+					if c.Yield {
+						runtime.Gosched()
+					}
+				}
+			}
+		}(w)
+	}
+	close(start)
+	wg.Wait()
+	total, calls := 0, 0
+	for w := range c.Scripts {
+		total += wrong[w]
+		calls += len(c.Scripts[w]) * c.Rounds
+	}
+	seen := map[string]bool{}
+	for _, m := range misses {
+		if m != nil && !seen[m.key] {
+			seen[m.key] = true
+			out.Violate(m.key, "%s (%d of %d calls made by %d goroutines at once were answered wrongly)", m.msg, total, calls, len(c.Scripts))
+		}
+	}
+	// the same calls once more, one at a time, on the same authenticator value
+	for w := range c.Scripts {
+		for _, entry := range c.Scripts[w] {
+			if m := call(entry, "after-concurrent-use"); m != nil && !seen[m.key] {
+				seen[m.key] = true
+				out.Violate(m.key, "%s", m.msg)
+			}
+		}
+	}
+	raceDelta(out, "C24", raceBefore)
 }
 
 // ---------------------------------------------------------------- XFCC
@@ -526,10 +733,13 @@ func runC24Noise(c c24Case, out *lib.Outcome) {
 }
 
 func genC24(t *rapid.T) c24Case {
-	switch k := rapid.IntRange(0, 9).Draw(t, "mode"); {
-	case k < 4:
+	// (rapid favours the ends of a range: the costly concurrent mode sits inside it)
+	switch k := rapid.IntRange(0, 39).Draw(t, "mode"); {
+	case k < 15:
 		return genC24Bearer(t)
-	case k < 9:
+	case k == 15:
+		return genC24BearerConc(t)
+	case k < 36:
 		return genC24Xfcc(t)
 	default:
 		return genC24Noise(t)
@@ -540,6 +750,8 @@ func runC24(c c24Case) (out lib.Outcome) {
 	switch c.Mode {
 	case "bearer":
 		runC24Bearer(c, &out)
+	case "bearer-conc":
+		runC24BearerConc(c, &out)
 	case "xfcc":
 		runC24Xfcc(c, &out)
 	case "noise":
@@ -552,19 +764,25 @@ var propC24 = lib.Prop[c24Case]{
 	ID: "C24",
 	Rule: "bearer: 1-6 distinct configured tokens (URL/base64 alphabet, spaces, unicode; prefixes, extensions and space-padded siblings of each other) and an Authorization header that is exact for one of them or one of 20 near variants (scheme case, double/leading/trailing space, tab, missing space, token alone, other schemes, token minus/plus/with one changed rune, empty, absent, random); oracle: accepted iff header == \"Bearer \"+t for a configured t, with t's own context. " +
 		"xfcc: 1-4 elements with any subset of By/Hash/Cert/Subject/URI/DNS(x1-3)/Chain in any order and key case, rendered by an independent renderer (quoted-string with \\\" and \\\\ when the value holds , ; = \" \\ or edge whitespace, optional quoting otherwise, Cert/URI/By percent-encoded with four different safe sets, ',' or ', ' between elements), subjects with CN in any RDN position, escaped commas, CN= decoys inside other attributes; oracle: ParseXfcc(render(E)) == E and default principal == CN of the first/last element. " +
-		"noise: fragment soup, must not panic. Non-trivial: bearer header at edit distance 1 of an accepted one, or an XFCC element with a quoted , or ;.",
-	Gen:          genC24,
-	Run:          runC24,
-	Essential:    []string{"near-miss", "quoted-delimiter", "bearer-accept", "bearer-reject", "xfcc-cn", "xfcc-cn-escaped", "xfcc-select-matters", "noise", "bearer:lower_scheme"},
-	EssentialMin: 500,
+		"bearer-conc (1 case in 40): ONE static authenticator with 2^1..2^12 API-key-shaped tokens ('vgi_'+hex, all of one length from 8..128, or four neighbouring lengths) called from 2-24 goroutines at once, each running a generated script (4-24 entries x 1-40 rounds, optionally yielding the processor between calls) of exact configured tokens, never-configured tokens of the same shape, configured tokens with the last character changed, and 'bearer ' in lower case; oracle per call, exact: accepted iff the header is \"Bearer \"+t for a configured t and then with t's own context, during the concurrent phase and once more sequentially afterwards; the binary is built with -race and a detector report during the case is a violation. " +
+		"noise: fragment soup, must not panic. Non-trivial: bearer header at edit distance 1 of an accepted one, an XFCC element with a quoted , or ;, or a concurrent case.",
+	Gen: genC24,
+	Run: runC24,
+	Essential: []string{"near-miss", "quoted-delimiter", "bearer-accept", "bearer-reject", "xfcc-cn", "xfcc-cn-escaped", "xfcc-select-matters", "noise", "bearer:lower_scheme",
+		"bearer-conc", "bearer-conc:equal-length", "bearer-conc:mixed-length", "bearer-conc:tokens>=256", "bearer-conc:tokens<256", "bearer-conc:goroutines>=8", "bearer-conc:yield", "bearer-conc:race-detector-on"},
+	EssentialMin: 2000,
 	Assumptions: []string{
 		"a CN whose value contains RFC 4514 escapes may be reported either as spelt in the subject or with the escapes removed",
 		"'+' inside URL-encoded fields is always rendered as %2B (form-decoding of a literal '+' is not asserted either way)",
 		"the Authorization value is given to the authenticator as-is (net/http would have trimmed surrounding whitespace before)",
+		"an AuthenticateFunc is called by the HTTP server from many goroutines at once; the statement is taken per call, whatever other calls are in flight",
 	},
 }
 
-func TestC24(t *testing.T) { lib.Check(t, propC24) }
+func TestC24(t *testing.T) {
+	defer dumpRaceLog()
+	lib.Check(t, propC24)
+}
 
 // FuzzXfcc: ParseXfcc and the XFCC / bearer authenticators never panic.
 func FuzzXfcc(f *testing.F) {
